@@ -128,7 +128,16 @@ impl Prop for Repair {
             finalize: true,
             piece_scheds: false,
         };
-        let ops = gen_ops(&mut rng, &c, &o);
+        let mut ops = gen_ops(&mut rng, &c, &o);
+        if !big && rng.chance(1, 10) {
+            // many small entries: tens to hundreds of files of 0..3 bytes
+            ops.clear();
+            let n = rng.range(20, if variant == "s0" { 40 } else { 90 });
+            for i in 0..n {
+                ops.push(WOp::Add { name: Name::lit(&format!("e{i}")), data: Data::Period { n: rng.below(4) as usize, p: 3 }, src: Src::exact() });
+            }
+            ops.push(WOp::Finalize);
+        }
         let mut case = Case::new(self.id, cfg, ops);
         if big {
             case.params.insert("max_anchors".into(), 12);
